@@ -1,0 +1,9 @@
+// SPDX-FileCopyrightText: The go-mail Authors
+//
+// SPDX-License-Identifier: MIT
+
+//go:build !verif
+
+package mail
+
+func verifHook(string, int, int) {}
